@@ -291,3 +291,47 @@ Proof.
   assert (R : reachable step (init progs) (g, ls)) by (exists sched; exact E).
   destruct (F progs g ls R) as (_ & G). cbn [fst] in Hin. rewrite (G u Hin) in Hb. discriminate.
 Qed.
+
+(* ---------------- forced removal of a role that is not attached ---------------- *)
+(* remove_state for a role whose bit is clear is a no-op on the byte, for every byte value:
+   in particular it never marks a connection the other role is attached to *)
+Definition absent_ok (b : N) : bool :=
+  forallb (fun r => if N.land b (rbit r) =? 0 then remove_new b r =? b else true) [RSend; RRecv].
+Lemma absent_table : forallb absent_ok (upto 256) = true.
+Proof. vm_compute. reflexivity. Qed.
+
+Lemma remove_absent_noop b r : b < 256 -> N.land b (rbit r) = 0 -> remove_new b r = b.
+Proof.
+  intros Hb Hz. pose proof absent_table as T. rewrite forallb_forall in T.
+  assert (Hin : In b (upto 256)) by (apply upto_in; lia). specialize (T b Hin). unfold absent_ok in T.
+  rewrite forallb_forall in T. assert (Hr : In r [RSend; RRecv]) by (destruct r; cbn; auto).
+  specialize (T r Hr). rewrite Hz in T. cbn in T. now apply N.eqb_eq in T.
+Qed.
+
+(* at the step level, in every reachable state: the CAS of a remove_state whose role bit is not in
+   the byte leaves the byte, both holders, cur and the unlink history as they are, and the handle
+   goes on to Storage::drop WITHOUT ownership unless the byte was already marked *)
+Lemma forced_absent_step progs g ls t h w c :
+  reachable step (init progs) (g, ls) -> at_pc (ls t) = RsCas h w c ->
+  i_st (get_inc g (h_inc h)) = c -> N.land c (rbit (h_role h)) = 0 -> c <> MARKED ->
+  exists g' e, step t g (ls t) = Some (g', goto (ls t) (DrOwn h w), [e]) /\
+    get_inc g' (h_inc h) = get_inc g (h_inc h) /\ cur g' = cur g /\ unl g' = unl g /\ saw_marked g' = saw_marked g.
+Proof.
+  intros H Epc Ec Hz Hm. pose proof (inv_reach _ _ H) as ((_ & G2 & _) & HL & _). cbn [fst snd] in *.
+  destruct (HL t) as (_ & _ & L3 & _). assert (R : (h_inc h < length (incs g))%nat) by (apply L3; rewrite Epc; reflexivity).
+  destruct (G2 _ R) as (V & _). rewrite Ec in V.
+  assert (Hb : c < 256) by (destruct V as [->|[->|[->|[->| ->]]]]; lia).
+  pose proof (remove_absent_noop c (h_role h) Hb Hz) as En.
+  unfold step. rewrite Epc. rewrite Ec, N.eqb_refl, Hz, (N.eqb_refl 0). cbv iota. rewrite En.
+  destruct (N.eqb_spec c MARKED) as [X|X]; [contradiction|].
+  eexists. eexists. split; [reflexivity|]. split; [|auto].
+  rewrite get_set_same by auto. destruct (get_inc g (h_inc h)) as [s p a b] eqn:Eg. cbn [i_st] in Ec. subst s.
+  destruct (h_role h); reflexivity.
+Qed.
+
+(* the seeded variant of remove_state (mark unless both roles are attached) violates it *)
+Definition remove_new_seeded (cur : N) (r : role) : N :=
+  if cur =? CONNECTED then N.land cur (255 - rbit r) else MARKED.
+Lemma seeded_rule_marks_under_attached_peer :
+  N.land 2 (rbit RSend) = 0 /\ remove_new 2 RSend = 2 /\ remove_new_seeded 2 RSend = MARKED.
+Proof. vm_compute. auto. Qed.
